@@ -126,9 +126,12 @@ func parseCreateMutationArgs(mut *request.ObjectMutation, args map[string]any) {
 			if !ok {
 				continue // value is nil
 			}
-			inputs := make([]map[string]any, len(v))
-			for i, v := range v {
-				inputs[i] = v.(map[string]any)
+			inputs := make([]map[string]any, 0, len(v))
+			for _, v := range v {
+				// a null element of the input list describes no document
+				if input, ok := v.(map[string]any); ok {
+					inputs = append(inputs, input)
+				}
 			}
 			mut.CreateInput = inputs
 
@@ -142,11 +145,7 @@ func parseCreateMutationArgs(mut *request.ObjectMutation, args map[string]any) {
 			if !ok {
 				continue // value is nil
 			}
-			fields := make([]string, len(v))
-			for i, v := range v {
-				fields[i] = v.(string)
-			}
-			mut.EncryptFields = fields
+			mut.EncryptFields = nonNullStrings(v)
 		}
 	}
 }
@@ -159,11 +158,7 @@ func parseDeleteMutationArgs(mut *request.ObjectMutation, args map[string]any) {
 			if !ok {
 				continue // value is nil
 			}
-			docIDs := make([]string, len(v))
-			for i, v := range v {
-				docIDs[i] = v.(string)
-			}
-			mut.DocIDs = immutable.Some(docIDs)
+			mut.DocIDs = immutable.Some(nonNullStrings(v))
 
 		case request.FilterClause:
 			if v, ok := value.(map[string]any); ok {
@@ -186,11 +181,7 @@ func parseUpdateMutationArgs(mut *request.ObjectMutation, args map[string]any) {
 			if !ok {
 				continue // value is nil
 			}
-			docIDs := make([]string, len(v))
-			for i, v := range v {
-				docIDs[i] = v.(string)
-			}
-			mut.DocIDs = immutable.Some(docIDs)
+			mut.DocIDs = immutable.Some(nonNullStrings(v))
 
 		case request.FilterClause:
 			if v, ok := value.(map[string]any); ok {
@@ -219,4 +210,17 @@ func parseUpsertMutationArgs(mut *request.ObjectMutation, args map[string]any) {
 			}
 		}
 	}
+}
+
+// nonNullStrings returns the string elements of a list argument.
+//
+// The elements of list arguments are nullable, a null element names nothing and is skipped.
+func nonNullStrings(values []any) []string {
+	result := make([]string, 0, len(values))
+	for _, value := range values {
+		if v, ok := value.(string); ok {
+			result = append(result, v)
+		}
+	}
+	return result
 }
